@@ -614,7 +614,7 @@ func genPipeOne(r *h.Rand, kind int) string {
 		items2 = append(items2, ppItem{[]byte(fmt.Sprintf("\x1b[<%d;%d;%dM", 35, x, y)), fmt.Sprintf("M%d.%d.0.0", x-1, y-1)}) // motion, no button
 		items2 = append(items2, ppItems(r, r.Range(0, 2), false, 70)...)
 		steps2, exp2, _ := ppFeed(r, items2, 4, 20, 0, -1)
-		mid := h.Pick(r, []string{"enablemouse 7", "enablemouse 3", "enablemouse 1 ; enablemouse 7", "disablemouse ; enablemouse", "enablemouse", "enablemouse 6", ""})
+		mid := h.Pick(r, []string{"enablemouse 7", "enablemouse 3", "enablemouse 1 ; enablemouse 7", "disablemouse ; enablemouse", "enablemouse", "enablemouse 6", "", "disablemouse", "disablemouse"})
 		ops := " ; wait stall"
 		if mid != "" {
 			ops += " ; " + mid
@@ -718,6 +718,10 @@ func genPipe(g *h.Gen) {
 	}
 	for i := g.N(10, 100); i > 0; i-- {
 		g.Emit("%s", genPipeOne(g.R, 9))
+	}
+	// mouse reports around mode-changing calls (a report that arrives after DisableMouse is still an event, a complete one)
+	for i := g.N(12, 100); i > 0; i-- {
+		g.Emit("%s", genPipeOne(g.R, 12))
 	}
 	ppLines = append(ppLines, g.Lines...)
 }
